@@ -463,7 +463,14 @@ Definition class_query (s : sinst) (k : qkind) : obs :=
     match s_fam s with
     | FKDE =>
         match k with
-        | QLogPdf => ObsErr TypeErr      (* ScipyModel.log_probability_density: gaussian_kde.logpdf(X, dataset=..) *)
+        | QLogPdf =>
+            (* since the F12 fix GaussianKDE overrides log_probability_density:
+                 self.check_fit(); return np.log(self.probability_density(X))
+               -- `self.probability_density` is looked up on the INSTANCE first, so after a constant fit it is
+               the log of the degenerate density.  (Before the fix: ScipyModel.log_probability_density called
+               gaussian_kde.logpdf(X, dataset=..) and raised TypeError on every input.) *)
+            if ov_pdf (s_ov s) then ObsConst QLogPdf (s_const s)
+            else match s_model s with Some m => ObsKde QLogPdf m None | None => ObsErr AttributeErr end
         | QPdf | QSample =>
             match s_model s with Some m => ObsKde k m None | None => ObsErr AttributeErr end
         | QCdf | QPpf =>
@@ -1042,7 +1049,9 @@ Definition from_dict_biv (w : bworld) (c : option ctype) (j : jv) : bworld * res
       match lookup "copula_type" d with
       | None => (w, Err KeyErr)
       | Some ct =>
-          let '(w', r) := new_biv w c [("copula_type", ct)] in
+          (* since the F24 fix: `instance = Bivariate(copula_type=...)`, whatever class from_dict is called on
+             (before: `cls(copula_type=...)`, which found no subclass of a subclass in a fresh interpreter) *)
+          let '(w', r) := new_biv w None [("copula_type", ct)] in
           match r with
           | Err e => (w', Err e)
           | Ok None => (w', Err AttributeErr)      (* None.theta = ... *)
@@ -1123,18 +1132,22 @@ Section Oracles.
         | Err e => (s1, g, Some e)
         end
     | None =>
-        (* NOTE: nothing resets _constant_value / the overrides here *)
+        (* since the F5 fix _check_constant_value resets _constant_value and pops the four instance-level
+           overrides on the non-constant branch (before: nothing was reset and [fit const; fit X] stayed degenerate) *)
+        let s := set_ov no_ov (set_const None s) in
         match s_fam s with
         | FTrunc =>
-            let s1 := if is_none (s_min s) then set_min (qj (d_min X - EPS)) s else s in
-            let s2 := if is_none (s_max s1) then set_max (qj (d_max X + EPS)) s1 else s1 in
-            match jv_q (s_min s2), jv_q (s_max s2) with
+            (* since the F6 fix the data-derived bounds are LOCAL to the fit (before: stored in self.min / self.max
+               by the first fit and reused by every later one) *)
+            let lo := if is_none (s_min s) then qj (d_min X - EPS) else s_min s in
+            let hi := if is_none (s_max s) then qj (d_max X + EPS) else s_max s in
+            match jv_q lo, jv_q hi with
             | Some lo, Some hi =>
                 let '(loc, scale) := o_tg_opt X lo hi in
                 let p := [("a", jdiv (lo - loc) scale); ("b", jdiv (hi - loc) scale);
                           ("loc", qj loc); ("scale", qj scale)] in
-                (set_fitted true (set_params (Some p) s2), g, None)
-            | _, _ => (s2, g, Some TypeErr)
+                (set_fitted true (set_params (Some p) s), g, None)
+            | _, _ => (s, g, Some TypeErr)
             end
         | FKDE =>
             let step :=
